@@ -26,7 +26,8 @@ pub struct Case {
     pub entries: Vec<Entry>,
 }
 
-const DIRN: [&str; 8] = ["game", "sqpack", "ffxiv", "ex1", "boot", "d", "v1..2", "d.e"];
+// the last six: sibling names of which one is the front of another ("ex1" / "ex10", "boot" / "boot2", "v" / "ve" / "ver")
+const DIRN: [&str; 14] = ["game", "sqpack", "ffxiv", "ex1", "boot", "d", "v1..2", "d.e", "ex10", "boot2", "v", "ve", "ver", "ex"];
 /// the second half: names that are a directory name of the pool followed by a byte that sorts below '/', so that the
 /// order of whole path strings and the order of paths compared component by component disagree
 const FILEN: [&str; 28] = ["a.bin", "b.dat", "ffxivgame.ver", "000000.win32.dat0", "000000.win32.index", "c.txt", "UPPER.Case", "x", "d.bak", "boot-old.bin", "game .txt", "ex1.ver", "sqpack+1.dat", "ffxiv!", "d-", "boot.d.e",
@@ -39,7 +40,7 @@ const FILEN: [&str; 28] = ["a.bin", "b.dat", "ffxivgame.ver", "000000.win32.dat0
 fn path_of(e: &Entry) -> String {
     let mut s = String::new();
     for d in &e.dirs {
-        s.push_str(DIRN[*d as usize % 8]);
+        s.push_str(DIRN[*d as usize % 14]);
         s.push('/');
     }
     // "x" has no dot: make it unambiguous as a file name
@@ -52,16 +53,18 @@ fn path_of(e: &Entry) -> String {
 
 fn size(max: u32) -> BoxedStrategy<u32> {
     prop_oneof![
-        3 => prop::sample::select(vec![1u32, 2, 3, 4, 111, 112, 113, 127, 128, 129, 143, 144, 145, 255, 256, 31_999, 32_000, 32_001]),
-        3 => 1u32..600,
-        2 => 1u32..=max,
+        27 => prop::sample::select(vec![1u32, 2, 3, 4, 111, 112, 113, 127, 128, 129, 143, 144, 145, 255, 256, 31_999, 32_000, 32_001]),
+        27 => 1u32..600,
+        18 => 1u32..=max,
+        // large enough for a half-compressible file to deflate to 32 000 bytes or more (the value that marks a stored block)
+        1 => prop::sample::select(vec![48_000u32, 60_000, 80_000, 120_000]),
     ]
     .boxed()
 }
 
 fn strategy(ctx: &Ctx) -> BoxedStrategy<Case> {
     let max = ctx.tier.pick(8 * 1024u32, 400 * 1024u32);
-    vec((vec(prop_oneof![6 => 0u8..6, 1 => 6u8..8], 0..=4), prop_oneof![3 => 0u8..8, 2 => 8u8..16, 2 => 16u8..24, 1 => 24u8..28], prop_oneof![8 => 0u8..4, 1 => 4u8..8], size(max), size(max), any::<u64>()).prop_map(|(dirs, name, kind, size_a, size_b, seed)| Entry { dirs, name, kind, size_a, size_b, seed }), 1..=10)
+    vec((vec(prop_oneof![6 => 0u8..6, 1 => 6u8..8, 5 => 8u8..14], 0..=4), prop_oneof![3 => 0u8..8, 2 => 8u8..16, 2 => 16u8..24, 1 => 24u8..28], prop_oneof![8 => 0u8..4, 1 => 4u8..8], size(max), size(max), any::<u64>()).prop_map(|(dirs, name, kind, size_a, size_b, seed)| Entry { dirs, name, kind, size_a, size_b, seed }), 1..=10)
         .prop_map(|entries| Case { entries })
         .boxed()
 }
@@ -130,6 +133,26 @@ fn prop(c: &Case, ctx: &Ctx) -> PResult {
         ctx.classf(format!("depth:{}", e.dirs.len()));
         let sz = e.size_a.max(e.size_b);
         ctx.classf(format!("size:{}", if sz <= 144 { "<=144" } else if sz < 31_999 { "<32000" } else if sz <= 32_001 { "~32000" } else { ">32000" }));
+        if e.size_b >= 48_000 && matches!(e.kind, 1 | 3) {
+            ctx.classf(format!("large-B-file:content-style:{}", (e.seed >> 8) % 4));
+        }
+    }
+    // directories that exist only in B, and among them siblings of which one name is the front of the other
+    let dirs_of = |m: &BTreeMap<String, Vec<u8>>| -> std::collections::BTreeSet<String> {
+        let mut d = std::collections::BTreeSet::new();
+        for p in m.keys() {
+            let mut cur = p.as_str();
+            while let Some(i) = cur.rfind('/') {
+                cur = &cur[..i];
+                d.insert(cur.to_string());
+            }
+        }
+        d
+    };
+    let (dirs_a, dirs_b) = (dirs_of(&a), dirs_of(&b));
+    let new_dirs: Vec<&String> = dirs_b.iter().filter(|d| !dirs_a.contains(*d)).collect();
+    if new_dirs.iter().any(|x| new_dirs.iter().any(|y| x != y && y.starts_with(x.as_str()) && !y[x.len()..].starts_with('/') && x.rfind('/') == y.rfind('/'))) {
+        ctx.class("new-sibling-directories:one-name-front-of-the-other");
     }
     let tmp = TmpDir::new("c04");
     let (ra, rb, rt) = (tmp.join("A"), tmp.join("B"), tmp.join("T"));
